@@ -241,6 +241,7 @@ func doRecord(t *testing.T, res *abs.Result) {
 		variants = append(variants, variantsOf[k]...)
 	}
 	id := 0
+	corrupted := false
 	perMode := map[string]int{}
 	for round := 0; round < rounds; round++ {
 		for _, variant := range variants {
@@ -288,8 +289,8 @@ func doRecord(t *testing.T, res *abs.Result) {
 						Case: map[string]interface{}{"variant": variant, "n": n, "m": m, "seed": tseed}, Got: rerr.Error(), Want: "all calls return"})
 					continue
 				}
-				if corrupt != "" && id == 3 {
-					corruptTrace(&tr, corrupt)
+				if corrupt != "" && !corrupted && id >= 3 {
+					corrupted = corruptTrace(&tr, corrupt)
 				}
 				if err := w.Write(tr); err != nil {
 					res.Fatal = err.Error()
@@ -322,16 +323,19 @@ func traceNontrivial(tr trace) bool {
 }
 
 // corruptTrace changes one logged field (self-test: the validator must reject the line).
-func corruptTrace(tr *trace, how string) {
+func corruptTrace(tr *trace, how string) bool {
 	switch how {
 	case "final":
 		tr.Final = append(tr.Final, [3]int{99, 1, len(tr.Final) + 1})
+		return true
 	case "in":
 		for c := range tr.Ev {
 			for i := range tr.Ev[c] {
-				if len(tr.Ev[c][i].In) > 0 {
+				// the input of an attempt that went on to write (dropping it from an attempt that
+				// declined or failed can still be a behaviour of the specification)
+				if len(tr.Ev[c][i].In) > 0 && i+1 < len(tr.Ev[c]) && tr.Ev[c][i+1].A == "put" && tr.Ev[c][i+1].E == "ok" {
 					tr.Ev[c][i].In = tr.Ev[c][i].In[1:]
-					return
+					return true
 				}
 			}
 		}
@@ -340,9 +344,10 @@ func corruptTrace(tr *trace, how string) {
 			for i := range tr.Ev[c] {
 				if tr.Ev[c][i].A == "put" && tr.Ev[c][i].E == "ok" {
 					tr.Ev[c][i].E = "fail"
-					return
+					return true
 				}
 			}
 		}
 	}
+	return false
 }
